@@ -21,10 +21,10 @@ ASSUMPTIONS = ["arc shapes are measured with chord_length = 1e-2 x size (the def
                "(h/r_min)^2/6 + 1e-9", "probe segments must miss every vertex by > 1e-6 x size and be transversal to every edge they meet "
                "(exact test); curved outlines: query points farther than 2e-3 x size from the boundary, parity from an 800-point-per-segment flattening"]
 CONFIGS = ['scipy']
-BUDGET = {'quick': 5000, 'thorough': 120000}
+BUDGET = {'quick': 16000, 'thorough': 300000}
 REQUIRED = ['area:polygon', 'area:bezier', 'area:ellipse', 'area:mixed', 'law:reversed', 'law:translated', 'law:scaled', 'law:scaled_xy',
             'law:transform', 'encloses:polygon', 'encloses:curved', 'contained:nested', 'contained:disjoint', 'contained:crossing',
-            'polygon:self_intersecting', 'polygon:concave']
+            'polygon:self_intersecting', 'polygon:concave', 'law:scaled_about_origin', 'probe:axis_parallel', 'contained:edges_as_beziers']
 CASE_TIMEOUT = 60
 TIME_LIMIT = {'quick': 250, 'thorough': 3300}
 
@@ -92,7 +92,8 @@ def strategy(tier, config):
         kind = draw(st.sampled_from(['poly_area', 'bez_area', 'bez_area', 'ellipse_area', 'mixed_area', 'encloses', 'encloses', 'encloses_curved',
                                      'contained', 'contained']))
         law = draw(law_s)
-        lp = {'z': [draw(st.integers(-50, 50)), draw(st.integers(-50, 50))], 's': draw(st.sampled_from([2.0, 0.5, -1.0, 3.0, -2.5])),
+        lp = {'z': [draw(st.integers(-50, 50)), draw(st.integers(-50, 50))], 's': draw(st.sampled_from([2.0, 0.5, -1.0, 3.0, -2.5, 0.76, 1.0 / 3, 1.7])),
+              'o': draw(st.sampled_from([None, None, [0.0, 0.0], [34.7, 26.4], [-3.1, 2.2], [1.0, -7.0], [0.1, 0.3]])),
               'sy': draw(st.sampled_from([2.0, 0.5, -1.0, 3.0])),
               'M': [draw(st.integers(-3, 3)) for _ in range(4)] + [draw(st.integers(-5, 5)), draw(st.integers(-5, 5))]}
         if kind == 'poly_area':
@@ -106,7 +107,7 @@ def strategy(tier, config):
             e = draw(ellipse_s())
             # half an ellipse closed by a polyline through an integer vertex
             v = draw(ivert)
-            return {'kind': kind, 'ell': e, 'v': v, 'law': 'none', 'lp': lp}
+            return {'kind': kind, 'ell': e, 'v': v, 'law': law if law != 'scaled_xy' else 'scaled', 'lp': lp}
         if kind == 'encloses':
             poly = draw(polygon_s())
             # query / outside points on a half-integer lattice offset (never on integer lattice lines)
@@ -114,16 +115,31 @@ def strategy(tier, config):
             o = [draw(st.sampled_from([-1, 1])) * (11 + draw(st.integers(0, 5)) + 0.5), draw(st.integers(-14, 14)) + 0.3125]
             if draw(st.booleans()):
                 o = [o[1], o[0]]
+            ax = draw(st.sampled_from([None, None, 'v', 'h']))
+            if ax == 'v':      # exactly vertical / horizontal probes
+                o = [q[0], o[0] if abs(o[0]) > 10 else o[1]]
+            elif ax == 'h':
+                o = [o[0] if abs(o[0]) > 10 else o[1], q[1]]
             return {'kind': kind, 'poly': poly, 'q': q, 'o': o}
         if kind == 'encloses_curved':
-            segs = draw(st.one_of(bezier_outline_s(), ellipse_s().map(lambda e: e['segs'])))
+            shape = draw(st.one_of(bezier_outline_s().map(lambda b: {'segs': b}), ellipse_s()))
+            segs = shape['segs']
             q = [draw(gen.floats_in(-9.0, 9.0)), draw(gen.floats_in(-9.0, 9.0))]
+            if 'center' in shape and draw(st.booleans()):
+                # a query point in the ellipse's own neighbourhood (inside its bounding box when unrotated)
+                q = [shape['center'][0] + draw(gen.floats_in(-1.0, 1.0)) * shape['rx'], shape['center'][1] + draw(gen.floats_in(-1.0, 1.0)) * shape['ry']]
             o = [draw(st.sampled_from([-1, 1])) * (25.0 + draw(gen.floats_in(0.0, 5.0))), draw(gen.floats_in(-20.0, 20.0))]
+            ax = draw(st.sampled_from([None, None, 'v', 'h']))
+            if ax == 'v':
+                o = [q[0], o[0]]
+            elif ax == 'h':
+                o = [o[0], q[1]]
             return {'kind': kind, 'segs': segs, 'q': q, 'o': o}
         outer = draw(polygon_s(simple_only=True))
         rel = draw(st.sampled_from(['nested', 'nested', 'disjoint', 'crossing']))
         inner_shape = draw(st.sampled_from(['scaled_copy', 'small_polygon', 'small_bezier']))
         return {'kind': 'contained', 'outer': outer, 'rel': rel, 'inner_shape': inner_shape, 'f': draw(st.sampled_from([0.5, 0.25, 0.125])),
+                'repr': [draw(st.sampled_from(['L', 'L', 'Q', 'C', 'mixed'])), draw(st.sampled_from(['L', 'L', 'L', 'Q', 'C', 'mixed']))],
                 'at': [draw(st.integers(-9, 9)) + 0.5, draw(st.integers(-9, 9)) + 0.25], 'small': draw(polygon_s(simple_only=True)),
                 'shift': [draw(st.integers(-12, 12)), draw(st.integers(-12, 12))]}
     return s()
@@ -133,10 +149,21 @@ def strategy(tier, config):
 # helpers
 # ---------------------------------------------------------------------------
 
-def poly_path(pts):
-    from svgpathtools import Path, Line
+def poly_path(pts, rep='L'):
+    """the closed polygon as a Path; rep 'Q' / 'C' / 'mixed': its straight edges written as degree-elevated Beziers (same point sets)"""
+    from svgpathtools import Path, Line, QuadraticBezier, CubicBezier
     n = len(pts)
-    return Path(*[Line(complex(pts[i][0], pts[i][1]), complex(pts[(i + 1) % n][0], pts[(i + 1) % n][1])) for i in range(n)])
+    segs = []
+    for i in range(n):
+        a, b = complex(pts[i][0], pts[i][1]), complex(pts[(i + 1) % n][0], pts[(i + 1) % n][1])
+        k = rep if rep != 'mixed' else 'LQC'[i % 3]
+        if k == 'Q':
+            segs.append(QuadraticBezier(a, (a + b) / 2, b))
+        elif k == 'C':
+            segs.append(CubicBezier(a, a + (b - a) / 3, a + (b - a) * 2 / 3, b))
+        else:
+            segs.append(Line(a, b))
+    return Path(*segs)
 
 
 def exact_area_specs(specs):
@@ -185,12 +212,19 @@ def apply_law(ctx, path, law, lp, want, has_arc, perimeter):
     if law == 'translated':
         z = complex(lp['z'][0], lp['z'][1])
         return path.translated(z), w, 1e-9 * abs(w) + 256 * EPS * (abs(w) + abs(z) * perimeter + abs(z) ** 2)
+    o = lp.get('o')
+    kwo = {} if o is None else {'origin': complex(o[0], o[1])}
+    ao = 0.0 if o is None else abs(complex(o[0], o[1]))
+    if o is not None:
+        ctx.count('law:scaled_about_origin')
     if law == 'scaled':
-        return path.scaled(lp['s']), w * lp['s'] ** 2, 1e-9 * abs(w) * lp['s'] ** 2
+        return (path.scaled(lp['s'], **kwo), w * lp['s'] ** 2,
+                1e-9 * abs(w) * lp['s'] ** 2 + 256 * EPS * (1 + lp['s'] ** 2) * (ao * perimeter + ao ** 2))
     if law == 'scaled_xy':
         if has_arc:
             return None
-        return path.scaled(lp['s'], lp['sy']), w * lp['s'] * lp['sy'], 1e-9 * abs(w * lp['s'] * lp['sy'])
+        return (path.scaled(lp['s'], lp['sy'], **kwo), w * lp['s'] * lp['sy'],
+                1e-9 * abs(w * lp['s'] * lp['sy']) + 256 * EPS * (1 + abs(lp['s'] * lp['sy']) + lp['s'] ** 2 + lp['sy'] ** 2) * (ao * perimeter + ao ** 2))
     if law == 'transform':
         a, b, c, d, e, f = lp['M']
         det = a * d - b * c
@@ -352,6 +386,8 @@ def check_encloses(case, ctx):
     if (n % 2 == 1) != inside:
         raise RuntimeError('harness: crossing parity %d disagrees with the even-odd test %r' % (n, inside))
     ctx.count('encloses:polygon')
+    if q[0] == o[0] or q[1] == o[1]:
+        ctx.count('probe:axis_parallel')
     if n >= 2 or not is_convex(poly):
         ctx.nontrivial()
     path = poly_path(poly)
@@ -436,6 +472,10 @@ def check_encloses_curved(case, ctx):
     if len(tpar) > 1 and np.min(np.diff(tpar)) * abs(d) < 1e-3 * size:
         ctx.discard('two crossings at (nearly) the same point')
     ctx.count('encloses:curved')
+    if q.real == o.real or q.imag == o.imag:
+        ctx.count('probe:axis_parallel_curved')
+        if all(sp[0] == 'A' and sp[3] % 90 == 0 and sp[2][0] != sp[2][1] for sp in specs) and inside:
+            ctx.count('probe:axis_parallel_from_inside_axis_aligned_ellipse')
     ctx.nontrivial()
     path = gen.build_path(specs)
     if not path.isclosed():
@@ -496,7 +536,10 @@ def check_contained(case, ctx):
     ctx.count('contained:' + cls)
     ctx.nontrivial()
     from svgpathtools import Path, QuadraticBezier
-    opath = poly_path(outer)
+    rep = case.get('repr', ['L', 'L'])
+    opath = poly_path(outer, rep[1])
+    if rep != ['L', 'L']:
+        ctx.count('contained:edges_as_beziers')
     if case['inner_shape'] == 'small_bezier' and not crossing:
         # replace every edge by a quadratic bulging slightly (stays within the polygon's neighbourhood): only used when the
         # relation is decided by position, i.e. nested deep inside or far away
@@ -511,9 +554,9 @@ def check_contained(case, ctx):
         fl = np.array([complex(p[0], p[1]) for p in outer])
         dmin = min(abs(p - v) for p in pts for v in fl)
         if dmin < 0.2 * size * f:
-            ipath = poly_path(base)
+            ipath = poly_path(base, rep[0])
     else:
-        ipath = poly_path(base)
+        ipath = poly_path(base, rep[0])
     if ipath == opath:
         ctx.discard('identical paths')
     got = ctx.lib('is_contained_by', ipath.is_contained_by, opath)
